@@ -455,26 +455,17 @@ class Pipe<StageClass::kGenerator, CurStage, PipeNext> {
   void execute() {
     ssize_t numThreads = std::max<ssize_t>(
         1, std::min(tasks_.numPoolThreads(), StageLimits<CurStage>::limit(stage_)));
-    completion_ = std::make_unique<CompletionEventImpl>(static_cast<int>(numThreads));
+    completion_ = std::make_shared<CompletionEventImpl>(static_cast<int>(numThreads));
     for (ssize_t i = 0; i < numThreads; ++i) {
       DISPENSO_VERIF_POINT("PlGenSubmit", this);
-      tasks_.schedule([this]() {
-        // RAII guard ensures the completion event is signaled even if an exception
-        // propagates out of pipeNext_.execute() (e.g. when ConcurrentTaskSet runs a
-        // downstream stage inline and it throws). Without this, wait() would hang on
-        // completion_->wait(0) because the count is never decremented.
-        struct CompletionGuard {
-          DISPENSO_INLINE ~CompletionGuard() {
-            DISPENSO_VERIF_POINT("PlGenDone", completion);
-            if (completion->intrusiveStatus().fetch_sub(1, std::memory_order_acq_rel) == 1) {
-              completion->notify(0);
-            }
-          }
-          CompletionEventImpl* completion;
-        };
+      // The signal is owned by the task's closure, so the completion event is signaled when the
+      // task has run (normally or with an exception propagating out of pipeNext_.execute(), e.g.
+      // when ConcurrentTaskSet runs a downstream stage inline and it throws) and also when the
+      // task is dropped without being invoked: a task set that has been cancelled by an exception
+      // skips tasks that have not started yet. Without this, wait() would hang on
+      // completion_->wait(0) because the count is never decremented.
+      tasks_.schedule([this, signal = CompletionSignal(completion_)]() {
         DISPENSO_VERIF_NOTE("PlRunG", this, 0, 0);
-        CompletionGuard cGuard{completion_.get()};
-
         DISPENSO_VERIF_POINT("PlGenHasExc", this);
         while (!tasks_.hasException()) {
           auto op = stage_();
@@ -497,8 +488,33 @@ class Pipe<StageClass::kGenerator, CurStage, PipeNext> {
   }
 
  private:
+  // Decrements the completion count when destroyed (notifying the waiter when it reaches zero).
+  // The event is shared with the signals: the last one may still be inside notify() when the
+  // waiter, having observed the final count, tears the pipeline down.
+  class CompletionSignal {
+   public:
+    explicit CompletionSignal(std::shared_ptr<CompletionEventImpl> completion)
+        : completion_(std::move(completion)) {}
+    CompletionSignal(CompletionSignal&& other) noexcept
+        : completion_(std::move(other.completion_)) {}
+    CompletionSignal(const CompletionSignal&) = delete;
+    CompletionSignal& operator=(const CompletionSignal&) = delete;
+    CompletionSignal& operator=(CompletionSignal&&) = delete;
+    ~CompletionSignal() {
+      if (completion_) {
+        DISPENSO_VERIF_POINT("PlGenDone", completion_.get());
+        if (completion_->intrusiveStatus().fetch_sub(1, std::memory_order_acq_rel) == 1) {
+          completion_->notify(0);
+        }
+      }
+    }
+
+   private:
+    std::shared_ptr<CompletionEventImpl> completion_;
+  };
+
   ConcurrentTaskSet& tasks_;
-  std::unique_ptr<CompletionEventImpl> completion_;
+  std::shared_ptr<CompletionEventImpl> completion_;
   CurStage stage_;
   PipeNext pipeNext_;
 };
